@@ -115,4 +115,36 @@ void harness_body(void) {
     }
 #endif
 }
+
+#ifdef REWIND
+/* (3) rewind mode of verify_impl (C09): after a successful ring verification and a successful inner rewind, the recovered value and blinding
+ * factor are re-committed, compared with the commitment, and handed to the caller -- each output independently of the other being requested */
+static int ri_calls, ri_ret; static secp256k1_scalar ri_blind; static uint64_t ri_v; static unsigned char *ri_m; static size_t *ri_mlen;
+int STUB_secp256k1_rangeproof_rewind_inner(const secp256k1_hash_ctx *hash_ctx, secp256k1_scalar *blind, uint64_t *v, unsigned char *m, size_t *mlen, secp256k1_scalar *ev, secp256k1_scalar *s, size_t *rsizes, size_t rings, const unsigned char *nonce, const secp256k1_ge *commit, const unsigned char *proof, size_t len, const secp256k1_ge *genp) {
+    (void)hash_ctx; (void)ev; (void)s; (void)rsizes; (void)nonce; (void)commit; (void)proof; (void)len; (void)genp; ri_calls++; ri_m = m; ri_mlen = mlen;
+    __CPROVER_assert(rings == RINGS, "inner rewind gets the ring count"); ri_blind = verif_sc(); ri_v = nondet_u64(); *blind = ri_blind; *v = ri_v; ri_ret = nondet_int() & 1; return ri_ret;
+}
+static int pe_calls; static secp256k1_scalar pe_sec; static uint64_t pe_value;
+void STUB_secp256k1_pedersen_ecmult(const secp256k1_ecmult_gen_context *ecmult_gen_ctx, secp256k1_gej *rj, const secp256k1_scalar *sec, uint64_t value, const secp256k1_ge *genp) { (void)ecmult_gen_ctx; (void)genp; pe_calls++; pe_sec = *sec; pe_value = value; *rj = verif_gej_any(); }
+typedef struct { unsigned char nonce[32], blind0[32], msg[16]; uint64_t v0; size_t outlen; int nb, nv, nm; } rw_in_t; rw_in_t nondet_rw_in(void);
+void harness_rewind_out(void) {
+    secp256k1_context ctx; body_in_t in = nondet_body_in(); rw_in_t rw = nondet_rw_in(); uint64_t minv = 0, maxv = 0, vout = rw.v0, expect, mn = 0; int ret, i; unsigned char blindout[32]; unsigned char proof[PLEN]; size_t outlen = rw.outlen;
+    verif_ctx_init(&ctx);
+    proof[0] = 64 | EXPF | (HASMIN ? 32 : 0); proof[1] = MANT - 1;
+    __CPROVER_assume(in.extralen <= 8 && rw.outlen <= 16); memcpy(blindout, rw.blind0, 32);
+    ret = secp256k1_rangeproof_verify_impl(secp256k1_get_hash_context(&ctx), &ctx.ecmult_gen_ctx, rw.nb ? NULL : blindout, rw.nv ? NULL : &vout, rw.nm ? NULL : rw.msg, rw.nm ? NULL : &outlen, rw.nonce, &minv, &maxv, &in.commit, proof, PLEN, in.extra, in.extralen, &in.gen);
+    __CPROVER_assert(ret == 0 || ret == 1, "boolean");
+    if (bor_calls && !bor_ret) __CPROVER_assert(ret == 0 && ri_calls == 0, "failed ring verification: no rewind attempted");
+    if (ri_calls && !ri_ret) __CPROVER_assert(ret == 0, "failed inner rewind => failure");
+    if (ret) {
+        for (i = 0; i < 8; i++) mn = HASMIN ? ((mn << 8) | proof[2 + i]) : 0;
+        expect = ri_v * (uint64_t)(EXPF == 0 ? 1 : (EXPF == 1 ? 10 : 100)) + mn;
+        __CPROVER_assert(ri_calls == 1 && pe_calls == 1 && pe_value == expect && sc_val(&pe_sec) == sc_val(&ri_blind), "the recovered (blind, value * scale + min) pair is what gets re-committed and compared with the commitment");
+        if (!rw.nv) __CPROVER_assert(vout == expect, "value_out receives the recovered value whether or not the blinding factor is requested");
+        if (!rw.nb) __CPROVER_assert(be_val(blindout, 32) == (bvw)sc_val(&ri_blind), "blind_out receives the recovered blinding factor");
+        __CPROVER_assert(ri_m == (rw.nm ? NULL : rw.msg) && ri_mlen == (rw.nm ? NULL : &outlen), "message buffer and length handed to the inner rewind unchanged");
+        __CPROVER_assert(!(rw.nb && !rw.nv), "witness: value requested without blinding factor");
+    }
+}
+#endif
 #endif
